@@ -57,7 +57,7 @@ theorem invariant_survives_new_run {g : P.Graph} {R : Nat} {w : P.World} (hi : P
 /-- In the full model the dirtiness check itself never changes file contents (so whatever is
 up to date stays so while checking). -/
 theorem check_preserves_files (R fuel : Nat) (w : World) (c : List Nat) (f mx : Nat) (seen : List Nat) :
-    (isDirty false R fuel w c f mx seen).2.1.fs = w.fs :=
-  (isDirty_frame false R fuel w c f mx seen).1
+    (isDirty false R fuel w c f mx seen none).2.1.fs = w.fs :=
+  (isDirty_frame false R fuel w c f mx seen none).1
 
 end C01
